@@ -20,18 +20,21 @@ META = {
 def configs(tier, prop="C07", equal=False):
     out = []
     if tier == "quick":
-        tup = [("dna", 1, 2), ("dna", 2, 3), ("protein", 2, 3), ("rna", 2, 3), ("internal", 2, 3), ("divergent", 2, 2), ("internal", 3, 3)]
+        tup = [("dna", 1, 2), ("dna", 2, 3), ("protein", 2, 3), ("rna", 2, 3), ("internal", 2, 3), ("divergent", 2, 2), ("internal", 3, 3), ("dna", 3, 3), ("protein", 3, 3)]
         if equal:
             tup = [("dna", 2, 2), ("dna", 3, 3), ("protein", 3, 3), ("internal", 3, 3)]
     else:
-        tup = [(t, la, lb) for t in split.TYPES for (la, lb) in ((1, 1), (1, 2), (1, 3), (2, 2), (2, 3), (2, 4), (3, 3), (3, 4))] + [("dna", 4, 4), ("protein", 4, 4)]
+        tup = [(t, la, lb) for t in split.TYPES for (la, lb) in ((1, 1), (1, 2), (1, 3), (2, 2), (2, 3), (2, 4), (3, 3), (3, 4))] + [("dna", 4, 4), ("protein", 4, 4), ("divergent", 4, 4), ("rna", 4, 5), ("protein", 4, 5)]
         if equal:
             tup = [(t, n, n) for t in split.TYPES for n in (1, 2, 3, 4)]
     for t, la, lb in tup:
         out.append(split.Config(prop, t, la, lb, equal=equal, timeout=900 if tier == "quick" else 3600, mem_gb=8))
     if tier != "quick" and not equal:
+        # user penalties: only settings for which the oracle (with the property's 2*gpo margin) raises no alarm on the
+        # unchanged tree in the native validation (tools/c07_native.c 5 4 <gpo> <gpe> <tgpe>); see DESIGN.md C07
         out.append(split.Config(prop, "dna", 2, 3, pen=(3.5, 1.0, 0.5), timeout=3600))
         out.append(split.Config(prop, "protein", 2, 3, pen=(11.0, 0.0, 2.0), timeout=3600))
+        out.append(split.Config(prop, "internal", 3, 3, pen=(2.0, 1.0, 1.0), timeout=3600))
     return out
 
 
